@@ -9,7 +9,7 @@ OWNED = {'plugs': 'plugs', 'no_return': 'execute() did not return',
 def fam_hang(tier):
   from vf.progs import beh, phase, program
   out = []
-  for td in ({'x': 'hang'}, {'x': 'hang', 'y': 'raise'}, {'y': 'hang'}):
+  for td in ({'x': 'hang'}, {'x': 'hang', 'y': 'raise'}, {'y': 'hang'}, {'x': 'hardhang'}, {'y': 'hardhang', 'x': 'raise'}):
     for b in ('C', 'E', 'T', 'A'):
       out.append(program([phase('p1', beh(b), plugs=('x',)), phase('p2', beh('C'), plugs=('x', 'y'))],
                          plugspec=dict(tdmode=td)))
